@@ -17,8 +17,10 @@ import (
 	"pgregory.net/rapid"
 
 	"verif/HARNESS/dyn"
+	"verif/core/aval"
 	"verif/core/hx"
 	"verif/core/refcodec"
+	"verif/core/schema"
 	"verif/core/stats"
 )
 
@@ -72,6 +74,60 @@ func onlyMembers(tr *refcodec.Tree, required []string, optional ...string) strin
 		return fmt.Sprintf("has the unexpected member %q", k)
 	}
 	return ""
+}
+
+// denotedKey reads a ROR2-encoded key (header value, last path segment, member name of a batch body) with the reference
+// parser and returns its identity under key equality.
+func denotedKey(kt schema.Type, raw string) (string, error) {
+	tr, err := refcodec.ParseROR2(raw)
+	if err != nil {
+		return "", err
+	}
+	v, err := refcodec.FromTree(S, kt, tr, refcodec.Opts{Bytes: refcodec.RawUTF8, ROR2: true})
+	if err != nil {
+		return "", err
+	}
+	return keyIdentity(kt, v), nil
+}
+
+// sameKeySet: the member names of a batch body denote exactly the given keys (as a set under key equality).
+func sameKeySet(kt schema.Type, obj *refcodec.Tree, want []*aval.V) string {
+	if obj == nil {
+		if len(want) == 0 {
+			return ""
+		}
+		return fmt.Sprintf("is absent, want %d keys", len(want))
+	}
+	if obj.Kind != "obj" {
+		return "is not a JSON object"
+	}
+	ws := map[string]bool{}
+	for _, k := range want {
+		ws[keyIdentity(kt, k)] = true
+	}
+	gs := map[string]bool{}
+	for _, kv := range obj.Obj {
+		id, err := denotedKey(kt, kv.K)
+		if err != nil {
+			return fmt.Sprintf("has the member %q, which is not a well-formed key of the resource: %v", kv.K, err)
+		}
+		if !ws[id] {
+			return fmt.Sprintf("has the member %q, which denotes none of the %d expected keys", kv.K, len(want))
+		}
+		gs[id] = true
+	}
+	if len(gs) != len(ws) {
+		return fmt.Sprintf("names %d distinct keys, want %d", len(gs), len(ws))
+	}
+	return ""
+}
+
+func kvKeys(kvs []dyn.KV) []*aval.V {
+	var out []*aval.V
+	for _, kv := range kvs {
+		out = append(out, kv.K)
+	}
+	return out
 }
 
 func checkEnvelope(rec *stats.Recorder, c callCase) string {
@@ -178,6 +234,11 @@ func checkEnvelope(rec *stats.Recorder, c callCase) string {
 		if m != "" {
 			return fail("%s request body %s", name, m)
 		}
+		if mi.Rest() == "batch_update" && mi.KeyType != nil {
+			if m := sameKeySet(*mi.KeyType, tr.Get("entities"), kvKeys(c.Call.EntityMap)); m != "" {
+				return fail("%s request: entities %s", name, m)
+			}
+		}
 	}
 	// ---- response ----
 	if err != nil {
@@ -236,6 +297,24 @@ func checkEnvelope(rec *stats.Recorder, c callCase) string {
 		if cp.RespHdr.Get("X-RestLi-Id") == "" {
 			return fail("create response lacks X-RestLi-Id")
 		}
+		if cr := c.Outcome.Created; cr != nil && !cr.Nil && cr.Id != nil && mi.KeyType != nil {
+			want := keyIdentity(*mi.KeyType, cr.Id)
+			if got, kerr := denotedKey(*mi.KeyType, cp.RespHdr.Get("X-RestLi-Id")); kerr != nil || got != want {
+				return fail("X-RestLi-Id %q does not denote the created id %s (%v)", cp.RespHdr.Get("X-RestLi-Id"), cr.Id.Canon(), kerr)
+			}
+			rec.Label("envelope_created_id_compared", 1)
+			if loc := cp.RespHdr.Get("Location"); loc != "" {
+				i := strings.LastIndex(loc, "/")
+				reqPath, _, _ := strings.Cut(cp.URI, "?")
+				if i < 0 || !strings.HasSuffix(loc[:i], reqPath) {
+					return fail("Location %q is not the request path %q followed by the id", loc, reqPath)
+				}
+				if got, kerr := denotedKey(*mi.KeyType, loc[i+1:]); kerr != nil || got != want {
+					return fail("the last segment of Location %q does not denote the created id %s (%v)", loc, cr.Id.Canon(), kerr)
+				}
+				rec.Label("envelope_location_compared", 1)
+			}
+		}
 		if !mi.M.ReturnEntity && rt != nil {
 			return fail("create without return entity answers with a body")
 		}
@@ -248,9 +327,38 @@ func checkEnvelope(rec *stats.Recorder, c callCase) string {
 				return fail("batch_create response element %d %s", i, m)
 			}
 		}
+		if bc := c.Outcome.BatchCreated; c.Outcome.HasBatchCr && mi.KeyType != nil {
+			if len(rt.Get("elements").Arr) != len(bc) {
+				return fail("batch_create response has %d elements, the resource returned %d", len(rt.Get("elements").Arr), len(bc))
+			}
+			for i, e := range rt.Get("elements").Arr {
+				id := e.Get("id")
+				if bc[i] == nil || bc[i].Nil || bc[i].Id == nil || id == nil {
+					continue
+				}
+				if id.Kind != "str" {
+					return fail("batch_create response element %d: id is not a string", i)
+				}
+				if got, kerr := denotedKey(*mi.KeyType, id.Str); kerr != nil || got != keyIdentity(*mi.KeyType, bc[i].Id) {
+					return fail("batch_create response element %d: id %q does not denote the created id %s (%v)", i, id.Str, bc[i].Id.Canon(), kerr)
+				}
+				rec.Label("envelope_batch_created_id_compared", 1)
+			}
+		}
 	case strings.HasPrefix(mi.Rest(), "batch_"):
 		if m := need(name, []string{"results"}, "statuses", "errors"); m != "" {
 			return m
+		}
+		if c.Outcome.HasBatch && mi.KeyType != nil {
+			if m := sameKeySet(*mi.KeyType, rt.Get("results"), kvKeys(c.Outcome.Results)); m != "" {
+				return fail("%s response: results %s", name, m)
+			}
+			if rt.Get("errors") != nil || len(c.Outcome.Errors) > 0 {
+				if m := sameKeySet(*mi.KeyType, rt.Get("errors"), kvKeys(c.Outcome.Errors)); m != "" {
+					return fail("%s response: errors %s", name, m)
+				}
+			}
+			rec.Label("envelope_batch_keys_compared", 1)
 		}
 		if mi.Rest() != "batch_get" {
 			for _, kv := range rt.Get("results").Obj {
